@@ -269,7 +269,7 @@ func c07Ties(r *rand.Rand, n int) Case {
 func init() {
 	register(&Prop{
 		ID:   "C07",
-		Rule: "pairs (L,R) with path-safe keys (a third over sibling keys where one is a prefix of another continued by '-', a digit, '_' or a letter; a sixth with a list of 11-14 items): R derived from L by 1-4 mutations at any depth (add/remove keys, scalar changes, list changes, kind flips) or independent; each pair diffed 10x (fresh DOMs; Go re-randomises map iteration) and the sequences must be identical; plus tie-heavy pairs (12-40 keys with composite-left / scalar-right, so Delete and Add share a path and an unstable sort would show) and diff.OverlayDocs over 0-3 layers per side; a tenth of the pairs go through files and the pipeline template function domdiff, whose rendered sequence must equal diff.Diff's. Observable: the exact sequence of (Type, Path, Value, OldValue). Non-trivial: diff has >= 2 modification kinds. Distinct by Gallina term. One operand composed of sealed parts; corpus: one YAML text decoded twice (timestamps with odd zone offsets, non-string-keyed mappings) diffs to nothing.",
+		Rule: "pairs (L,R) with path-safe keys (a third over sibling keys where one is a prefix of another continued by '-', a digit, '_' or a letter; a sixth with a list of 11-14 items): R derived from L by 1-4 mutations at any depth (add/remove keys, scalar changes, list changes, kind flips) or independent; each pair diffed 10x (fresh DOMs; Go re-randomises map iteration) and the sequences must be identical; plus tie-heavy pairs (12-40 keys with composite-left / scalar-right, so Delete and Add share a path and an unstable sort would show) and diff.OverlayDocs over 0-3 layers per side; a tenth of the pairs go through files and the pipeline template function domdiff, whose rendered sequence must equal diff.Diff's. Observable: the exact sequence of (Type, Path, Value, OldValue). Non-trivial: diff has >= 2 modification kinds. Distinct by Gallina term. One operand composed of sealed parts; corpus: one YAML text decoded twice (timestamps with odd zone offsets, non-string-keyed mappings) diffs to nothing. OverlayDocs: layers with equal content on both sides, an entry required for every layer name; corpus: one mapping object at four positions of the left operand.",
 		Corpus: func() []Case {
 			return []Case{
 				c07Diff(map[string]any{"a": 1}, map[string]any{"a": 1}, 3),
